@@ -25,7 +25,11 @@ def parse_packaged(text: str, how: dict, tmp: Path):
         text = text.replace("\r\n", "\n").replace("\n", "\r\n")
     if how["mode"] == "string":
         has_end = any(l.lstrip().startswith("End") and not l.lstrip().startswith("Enddecay") for l in text.splitlines())
-        p = DecFileParser.from_string(text + ("End\n" if how.get("end_string") and not has_end else ""))
+        text = text + ("End\n" if how.get("end_string") and not has_end else "")
+        if how.get("last_line_is_comment"):
+            # the text ends in a comment that runs to the very end of the input (no final line end)
+            text = text.rstrip("\r\n") + "  # the end"
+        p = DecFileParser.from_string(text)
     else:
         lines = text.splitlines(keepends=True)
         cuts = [0] + sorted(set(c for c in how.get("cuts", []) if 0 < c < len(lines))) + [len(lines)]
@@ -89,7 +93,8 @@ def first_diff(a, b, path=""):
 def random_packaging(rng, nlines):
     r = rng.random()
     if r < 0.25:
-        return {"mode": "string", "crlf_all": rng.random() < 0.3, "end_string": rng.random() < 0.3}
+        return {"mode": "string", "crlf_all": rng.random() < 0.3, "end_string": rng.random() < 0.3,
+                "last_line_is_comment": rng.random() < 0.4}
     k = rng.choice([1, 1, 2, 3, 5])
     cuts = sorted(rng.sample(range(1, max(2, nlines)), min(k - 1, max(0, nlines - 1)))) if k > 1 else []
     return {"mode": "files", "bom": rng.random() < 0.5, "bom_parts": rng.sample(range(k), rng.randint(1, k)),
